@@ -92,13 +92,49 @@ def run(ctx):
     variants = {"LRUTrie": "ural.lru.stems.lru_stems", "CanonicalizedLRUTrie": "ural.lru.stems.canonicalized_lru_stems", "NormalizedLRUTrie": "ural.lru.stems.normalized_lru_stems", "FingerprintedLRUTrie": "ural.lru.stems.fingerprinted_lru_stems"}
     for cls, target in variants.items():
         c = tr.klass(cls)
-        meths = [s.name for s in c.body if isinstance(s, ast.FunctionDef)]
+        meths = [s.name for s in c.body if isinstance(s, ast.FunctionDef)] + [t.id for s in c.body if isinstance(s, ast.Assign) for t in s.targets if isinstance(t, ast.Name) and not t.id.startswith("__")]
         if cls != "LRUTrie":
             ctx.ob("R2", cls + "/overrides-only-tokenize", meths == ["tokenize"], "%s overrides %s" % (cls, meths), tr.site(c))
             bases = [unparse(b) for b in c.bases]
             ctx.ob("R2", cls + "/extends-LRUTrie", bases == ["LRUTrie"], "%s extends %s" % (cls, bases), tr.site(c))
-        fn = tr.method(cls, "tokenize")
         ctx.fn("ural.lru.trie.%s.tokenize" % cls)
+        # decided by interpreting tokenize on an instance, the four stems functions replaced by recorders: exactly one call,
+        # to the class's own stems function, with the url, suffix_aware=self.suffix_aware and the constructor's other options
+        from ..microeval import instantiate, Native, Raised, _class_member, call_value
+        decided = True
+        for sa, opts in ((False, {}), (True, {}), (True, {"strip_trailing_slash": False, "quoted": True})):
+            if cls == "LRUTrie" and opts:
+                continue
+            calls = []
+
+            def recorder(name):
+                def rec(*a, **k):
+                    calls.append((name, a, k))
+                    return ["s:marker"]
+                return Native(rec)
+            repo.overrides = {q: recorder(q) for q in variants.values()}
+            try:
+                obj = instantiate(repo, tr, c, [], dict(opts, suffix_aware=sa))
+                got = call_value(repo, _class_member(repo, obj, "tokenize"), ["http://U/x"])
+            except Unknown as e:
+                ctx.undecided("R2", "%s.tokenize not interpretable: %s" % (cls, e))
+                decided = False
+                break
+            finally:
+                repo.overrides = {}
+            key = "%s/tokenize/suffix_aware=%s%s" % (cls, sa, "+options" if opts else "")
+            ok = len(calls) == 1 and calls[0][0] == target and list(got) == ["s:marker"]
+            ctx.ob("R2", key + "/calls-own-stems-function", ok, "%s(suffix_aware=%s).tokenize(url) calls %s, expected one call of %s whose result is returned" % (cls, sa, [x[0].rpartition(".")[2] for x in calls], target.rpartition(".")[2]), tr.site(c), witness="%s(suffix_aware=%s)" % (cls, sa))
+            if ok:
+                _, a, k = calls[0]
+                k = dict(k)
+                given_sa = a[1] if len(a) > 1 else k.pop("suffix_aware", "<not passed>")
+                ctx.ob("R2", key + "/url", a[:1] == ("http://U/x",), "%s.tokenize does not pass the url" % cls, tr.site(c))
+                ctx.ob("R2", key + "/suffix_aware", given_sa is sa, "%s(suffix_aware=%s).tokenize passes suffix_aware=%r" % (cls, sa, given_sa), tr.site(c), witness="%s(suffix_aware=%s)" % (cls, sa))
+                ctx.ob("R2", key + "/options", k == opts, "%s(%s).tokenize forwards the options %r" % (cls, ", ".join("%s=%r" % kv for kv in sorted(opts.items())), k), tr.site(c))
+        if decided:
+            continue
+        fn = tr.method(cls, "tokenize")
         ex = P.Extractor(repo, atomic=set(variants.values()))
         rets = [r for r in ex.function(FuncRef(tr, fn, cls + ".tokenize")) if r.kind == "return"]
         ok = len(rets) == 1 and rets[0].term[0] == "call" and rets[0].term[1] == target
